@@ -19,7 +19,10 @@ def rCmd (s : S) : Reserve.Cmd :=
     | "random" => .random (a.intD 0).toNat (b.intD 0) | "cconnote" => .ccOnNote (a.intD 0) (ints b)
     | "ccontime" => .ccOnTime (a.intD 0) (ints b) | "pbontime" => .pbOnTime (a.sym == "1") (ints b)
     | _ => .rest
-  | [_, a, b, c] => .onNote (a.intD 0).toNat (ints b) (c.sym == "1")
+  | [k, a, b, c] => if k.sym == "onnote" then .onNote (a.intD 0).toNat (ints b) (c.sym == "1") else .rest
+  | [k, a, b, c, d] =>
+    if k.sym == "notex" then .noteX (a.intD 0) b.int? c.int? d.int?
+    else if k.sym == "noten" then .noteN (a.intD 0) b.int? c.int? d.int? else .rest
   | _ => .rest
 
 def reserveRun (hexSexp : String) : String :=
